@@ -12,7 +12,7 @@ RULE = ('config texts mixing known and unknown targets (flat, block, scoped, mod
         'at finalize; dynamic: first-use parse == repeat parse == reduced parse, and == skip_unknown=False parse when everything resolves. '
         'distinct = (statement kinds, skip form, which unknowns listed, registration mode)')
 TIERS = {
-    'quick': {'workers': 8, 'cases': 450, 'timeout': 600},
+    'quick': {'workers': 8, 'cases': 1800, 'timeout': 600},
     'thorough': {'workers': 16, 'cases': 12000, 'timeout': 3000},
 }
 REQUIRED_BUCKETS = ['list:includes-known-name', 'mode:static', 'mode:dynamic', 'skip:False', 'skip:True', 'skip:list', 'skip:tuple', 'skip:set', 'stmt:flat-unknown', 'stmt:block-unknown',
